@@ -50,7 +50,7 @@ class C10(Check):
     budget = (60, 400)
 
     def cases(self, tier, seed):
-        n = 200 if tier == "quick" else 8000
+        n = 280 if tier == "quick" else 8000
         rng = np.random.default_rng([seed, 10])
         for i in range(n):
             yield dict(seed=seed * 100003 + i, closed=["left", "right"][i % 2],
